@@ -3,6 +3,7 @@ import XmppModel.Lemmas.NegotiateFault
 import XmppModel.Lemmas.NegotiateDone
 import XmppModel.Lemmas.NegotiateComplete
 import XmppModel.Lemmas.NegotiateForced
+import XmppModel.Lemmas.NegotiateVol
 /-!
 The invariants of the negotiation machine hold in every reachable configuration (initial
 configuration + preservation by `step`, lifted by induction on the number of steps).
@@ -89,7 +90,7 @@ theorem invP_reach {c : Conf} (h : Reach C O st0 script picks c) : InvP C script
     · intro h; cases h
     · intro _ h; cases h
     · intro h; cases h
-    · intro _ _ _ h; cases h
+    · intro _ _ _ _ h; cases h
   · intro c hc hp
     exact invP_step C O script c (invS_reach hc).sub hp
 
@@ -121,6 +122,15 @@ theorem invX_reach {c : Conf} (h : Reach C O st0 script picks c) : InvX C c := b
   · intro _ h; cases h
   · intro h; cases h
   · intro h; rcases h with h | h | h <;> cases h
+
+theorem invV_reach {c : Conf} (h : Reach C O st0 script picks c) : InvV c := by
+  refine reach_ind (P := InvV) ?_ (fun c _ hc => invV_step C O c hc) c h
+  refine ⟨True.intro, ?_, ?_, fun _ _ => rfl, ?_, ?_, ?_⟩
+  · intro h; cases h
+  · intro _ ns hns; cases hns
+  · intro h; rcases h with h | h <;> cases h
+  · intro h; cases h
+  · intro h; cases h
 
 theorem allowed_mandatory {cands : List Entry} {e : Entry} (he : e ∈ allowed cands)
     (hr : e.req = true) : ∀ e' ∈ cands, e'.req = true := by
